@@ -1,5 +1,6 @@
 import Driver.C16Mon
 import OidcModel.Model.DeviceFlow
+import OidcModel.Model.DeviceRand
 open Kv Drv
 
 namespace Drv.C16
@@ -81,6 +82,17 @@ def pureStep (l : Line) : Option (String × String) :=
       | some s => esc (String.ofList s)
       | none => "panic"
     some (m, esc (str l "o.uc"))
+  | "usercodebytes" =>
+    let stream := hexBytes (str l "stream").toList
+    let m := match Hand.NewUserCodeFromStream (str l "uc.cs").toList (nat l "uc.n") (nat l "uc.d") stream with
+      | .code c rest => s!"ok:{esc (String.ofList c)}:{stream.length - rest.length}"
+      | .entropyError => "err:entropy"
+      | .panic => "panic"
+    let o := match str l "obs" with
+      | "ok" => s!"ok:{esc (str l "o.uc")}:{nat l "o.used"}"
+      | "err" => "err:" ++ str l "o.err"
+      | x => x
+    some (m, o)
   | "devicecode" => some (esc (Hand.NewDeviceCode (hexBytes (str l "bytes").toList)), esc (str l "o.dc"))
   | _ => none
 
